@@ -479,31 +479,31 @@ impl ConfigurationAccess for Bus {
     }
 }
 
-/// C12 K-complete for one step: `BusDeviceIterator::next` from *every* iterator position over *every*
-/// population of the bus (2^256 populations): returns the first present function at or after the
-/// position with the identity fields decoded per the header layout, leaves the iterator just behind it;
-/// None iff nothing present remains.  By induction over calls this is "exactly the functions present,
-/// ascending, once each".  The loops (<= 256 iterations) are fully unwound: complete.
-#[kani::proof]
-#[kani::unwind(260)]
-fn c12_bus_next() {
+/// One `BusDeviceIterator::next` step against the reference "first present function at or after the
+/// position".  `window`: None = the whole bus; Some(w) = populations with a present function within the
+/// next w positions, or positions within w of the end of the bus (so both loops run <= w times).
+fn bus_next_contract(window: Option<u16>) {
     let b = Bus { bus: kani::any(), present: kani::any(), id: kani::any(), class: kani::any(), hdr: kani::any() };
     kani::assume(b.id & 0xffff != 0xffff); // a present function has a valid vendor id
     let dev: u8 = kani::any();
     let func: u8 = kani::any();
     kani::assume(dev <= 32 && func < 8 && (dev < 32 || func == 0));
-    let mut it = BusDeviceIterator { configuration_access: b.clone(), next: DeviceFunction { bus: b.bus, device: dev, function: func } };
-    let r = it.next();
-    // reference: first present position >= start
     let start = u16::from(dev) * 8 + u16::from(func);
+    // reference: first present position >= start (256 = none)
+    let end: u16 = match window { None => 256, Some(w) => if start + w < 256 { start + w } else { 256 } };
     let mut first: u16 = 256;
-    let mut p: u16 = 256;
-    while p > 0 {
+    let mut p: u16 = end;
+    while p > start {
         p -= 1;
-        if p >= start && b.has((p / 8) as u8, (p % 8) as u8) {
+        if b.has((p / 8) as u8, (p % 8) as u8) {
             first = p;
         }
     }
+    if end < 256 {
+        kani::assume(first < 256);
+    }
+    let mut it = BusDeviceIterator { configuration_access: b.clone(), next: DeviceFunction { bus: b.bus, device: dev, function: func } };
+    let r = it.next();
     match r {
         None => {
             assert!(first == 256, "C12: a present function was not reported");
@@ -524,6 +524,25 @@ fn c12_bus_next() {
             assert!(info.header_type == want, "C12: header type decoded wrongly");
         }
     }
+}
+
+/// C12 K-complete for one step: `BusDeviceIterator::next` from *every* iterator position over *every*
+/// population of the bus (2^256 populations): returns the first present function at or after the
+/// position with the identity fields decoded per the header layout, leaves the iterator just behind it;
+/// None iff nothing present remains.  By induction over calls this is "exactly the functions present,
+/// ascending, once each".  The loops (<= 256 iterations) are fully unwound: complete.  (~8 min)
+#[kani::proof]
+#[kani::unwind(260)]
+fn c12_bus_next() {
+    bus_next_contract(None);
+}
+
+/// C12 bounded stand-in of `c12_bus_next` (gap <= 12): every position, every population in which the next
+/// present function is at most 12 positions away, or the position is within 12 of the end of the bus.
+#[kani::proof]
+#[kani::unwind(14)]
+fn c12_bus_next_gap12() {
+    bus_next_contract(Some(12));
 }
 
 /// C12 K-complete: `enumerate_bus` starts at device 0 function 0 of the requested bus.
